@@ -324,3 +324,68 @@ func BadDefaultNoStop(o *options) func(c Ctx) {
 		c.Next()
 	}
 }
+
+type opts2 struct {
+	extract        func(c Ctx) string
+	streamExtract  func(c Ctx) string
+	fallback       func(c Ctx) error
+	streamFallback func(c Ctx) error
+}
+
+// the fallback that is called is not the one that was tested
+func BadMisguardedFallback(o *opts2) func(c Ctx) {
+	return func(c Ctx) {
+		entry, err := sentinel.Entry("r")
+		if err != nil {
+			if o.fallback != nil {
+				_ = o.streamFallback(c)
+				return
+			}
+			c.AbortWithStatus(429)
+			return
+		}
+		defer entry.Exit()
+		c.Next()
+	}
+}
+
+// the resource extractor that is called is not the one that was tested
+func BadMisguardedExtractor(o *opts2) func(c Ctx) {
+	return func(c Ctx) {
+		name := "r"
+		if o.extract != nil {
+			name = o.streamExtract(c)
+		}
+		entry, err := sentinel.Entry(name)
+		if err != nil {
+			c.AbortWithStatus(429)
+			return
+		}
+		defer entry.Exit()
+		c.Next()
+	}
+}
+
+// each call under its own test (also through a conjunction, and nested)
+func GoodGuards(o *opts2) func(c Ctx) {
+	return func(c Ctx) {
+		name := "r"
+		if o.extract != nil && o.streamExtract != nil {
+			name = o.extract(c) + o.streamExtract(c)
+		}
+		entry, err := sentinel.Entry(name)
+		if err != nil {
+			if o.fallback != nil {
+				if o.streamFallback != nil {
+					_ = o.streamFallback(c)
+				}
+				_ = o.fallback(c)
+				return
+			}
+			c.AbortWithStatus(429)
+			return
+		}
+		defer entry.Exit()
+		c.Next()
+	}
+}
